@@ -10,11 +10,20 @@ import (
 	"strings"
 )
 
-// C20: the constants and tables the Lean model of the access logger silently depends on, and the
-// call-shape facts behind "time fields are rendered in UTC", "Response is never nil", "the renderers only
-// read the event".
+// C20: the constants and tables the Lean model of the access logger depends on, and the call-shape facts
+// behind "time fields are rendered in UTC", "Response is never nil", "the renderers only read the event",
+// "the pooled buffer is put back after the write".
+//
+// The facts are about MEANING, not spelling (see normalize.go): package constants are inlined, switches are
+// if-chains, calls into unexported same-package helpers are followed, variables are identified by role
+// (i-th parameter, "assigned from e.End.UTC()", "the table indexed here", "the fixed-size byte array of this
+// function"), and only callee / method / field names and standard-library type names are emitted. The only
+// unexported names looked up by spelling are those the hooks in verif_c20.go reference themselves (fields,
+// atoi, lex, parse, write, i32toa, uint16base16): renaming one of them breaks the harness build anyway.
 func init() {
 	register("C20", func(x *X) error {
+		x.UseNormalizedAST()
+
 		// ---- logger: the table of log fields, the documented list, the format constants ----
 		var fieldsLit *ast.CompositeLit
 		if e := x.valueSpec("logger", "fields"); e != nil {
@@ -31,13 +40,10 @@ func init() {
 				}
 			}
 		}
-		if e := x.valueSpec("logger", "shortMonthNames"); e != nil {
-			x.defStrList("shortMonthNames", c20StrElems(x, e))
-		}
 
 		// ---- atoi: scratch array size and the pad arguments at its call sites ----
 		if fd := x.funcDecl("logger", "", "atoi"); fd != nil {
-			x.defNat("atoiBufLen", c20ArrayLen(x, fd, "d"))
+			x.defNat("atoiBufLen", c20ByteArrayLen(x, "logger", fd))
 		}
 		pads := map[uint64]bool{}
 		for _, f := range x.files("logger") {
@@ -46,12 +52,11 @@ func init() {
 					x.fail("atoi call with %d arguments", len(c.Args))
 					continue
 				}
-				lit, ok := c.Args[2].(*ast.BasicLit)
-				if !ok || lit.Kind != token.INT {
-					x.fail("atoi pad argument is not an integer literal: %s", x.src(c))
+				v, ok := c20ConstInt(x, "logger", c.Args[2])
+				if !ok {
+					x.fail("atoi pad argument is not an integer constant: %s", x.src(c))
 					continue
 				}
-				v, _ := strconv.ParseUint(lit.Value, 0, 64)
 				pads[v] = true
 			}
 		}
@@ -63,9 +68,8 @@ func init() {
 		x.defRaw("def atoiPads : List Nat := " + c20NatList(padList))
 
 		// ---- the field functions: where the calendar fields come from; writes to the event ----
-		calendar := map[string]bool{"Year": true, "Month": true, "Day": true, "Hour": true, "Minute": true, "Second": true, "Nanosecond": true}
+		tw := &c20TimeWalk{x: x, dir: "logger"}
 		var counts []string
-		var notUTC, eventWrites, endUses []string
 		if fieldsLit != nil {
 			for _, el := range fieldsLit.Elts {
 				kv, ok := el.(*ast.KeyValueExpr)
@@ -78,96 +82,140 @@ func init() {
 					x.fail("field %s is not a function literal", name)
 					continue
 				}
-				// local variables bound to e.End.UTC()
-				utcVars := map[string]bool{}
-				ast.Inspect(fn, func(n ast.Node) bool {
-					if as, ok := n.(*ast.AssignStmt); ok && len(as.Lhs) == 1 && len(as.Rhs) == 1 {
-						if id, ok := as.Lhs[0].(*ast.Ident); ok {
-							if x.src(as.Rhs[0]) == "e.End.UTC()" {
-								utcVars[id.Name] = true
-							} else {
-								delete(utcVars, id.Name)
-							}
-						}
-					}
-					return true
-				})
-				n := 0
-				ast.Inspect(fn, func(nd ast.Node) bool {
-					switch v := nd.(type) {
-					case *ast.CallExpr:
-						if sel, ok := v.Fun.(*ast.SelectorExpr); ok {
-							recv := x.src(sel.X)
-							if calendar[sel.Sel.Name] {
-								n++
-								id, isID := sel.X.(*ast.Ident)
-								if !(recv == "e.End.UTC()" || (isID && utcVars[id.Name])) {
-									notUTC = append(notUTC, name+": "+x.src(v))
-								}
-							}
-							if recv == "e.End" {
-								endUses = append(endUses, sel.Sel.Name)
-							}
-						}
-					case *ast.AssignStmt:
-						for _, l := range v.Lhs {
-							if c20RootedAt(l, "e") {
-								eventWrites = append(eventWrites, name+": "+x.src(v))
-							}
-						}
-					case *ast.IncDecStmt:
-						if c20RootedAt(v.X, "e") {
-							eventWrites = append(eventWrites, name+": "+x.src(v))
-						}
-					}
-					return true
-				})
+				// role: the event is the last parameter of a field function
+				env := c20Env{event: map[string]bool{}, end: map[string]bool{}, utc: map[string]bool{}}
+				if ps := c20ParamNames(fn.Type); len(ps) > 0 {
+					env.event[ps[len(ps)-1]] = true
+				}
+				tw.field, tw.n = name, 0
+				tw.walk(fn.Body, env, 0)
 				if strings.HasPrefix(name, "$time_") && !strings.HasPrefix(name, "$time_unix") {
-					counts = append(counts, fmt.Sprintf("(%s, %d)", leanStr(name), n))
-				} else if n > 0 {
-					notUTC = append(notUTC, name+": calendar accessor outside the time fields")
+					counts = append(counts, fmt.Sprintf("(%s, %d)", leanStr(name), tw.n))
+				} else if tw.n > 0 {
+					tw.notUTC = append(tw.notUTC, name+": location-dependent time method outside the wall-clock fields")
 				}
 			}
 		}
 		sort.Strings(counts)
-		x.defRaw("/-- per wall-clock time field: number of calendar accessor calls (Year … Nanosecond) in its renderer -/\ndef timeFieldAccessorCalls : List (String × Nat) := [" + strings.Join(counts, ", ") + "]")
-		x.defStrList("calendarAccessorsNotOnUTC", notUTC)
-		sort.Strings(endUses)
-		x.defStrList("methodsCalledOnEnd", c20Uniq(endUses))
-		x.defStrList("rendererWritesToEvent", eventWrites)
+		x.defRaw("/-- per wall-clock time field: number of location-dependent time.Time method calls (Year … Nanosecond,\nDate, Clock, Format, …) reached from its renderer, helpers included -/\ndef timeFieldAccessorCalls : List (String × Nat) := [" + strings.Join(counts, ", ") + "]")
+		x.defStrList("calendarAccessorsNotOnUTC", tw.notUTC)
+		sort.Strings(tw.endUses)
+		x.defStrList("methodsCalledOnEnd", c20Uniq(tw.endUses))
+		x.defStrList("rendererWritesToEvent", tw.eventWrites)
+		if tw.months != "" {
+			if e := x.valueSpec("logger", tw.months); e != nil {
+				x.defStrList("shortMonthNames", c20StrElems(x, e))
+			}
+		} else {
+			x.fail("logger: no month-name table ([]string indexed by a wall-clock renderer) found")
+		}
 
 		// pattern.write: the early return on an empty buffer (D26) and the single newline
-		if fd := x.funcDecl("logger", "pattern", "write"); fd != nil {
+		if fd := x.anyFuncDecl("logger", "write"); fd != nil {
 			skip := false
 			nl := 0
-			ast.Inspect(fd, func(n ast.Node) bool {
-				if is, ok := n.(*ast.IfStmt); ok && x.src(is.Cond) == "b.Len() == 0" && len(is.Body.List) == 1 {
-					if _, ok := is.Body.List[0].(*ast.ReturnStmt); ok {
+			buf := ""
+			if ps := c20ParamNames(fd.Type); len(ps) > 0 {
+				buf = ps[0] // role: the buffer is the first parameter
+			}
+			x.WalkInlined("logger", fd, func(n ast.Node) bool {
+				if is, ok := n.(*ast.IfStmt); ok && len(is.Body.List) == 1 && is.Else == nil {
+					if _, ok := is.Body.List[0].(*ast.ReturnStmt); ok && c20IsLenZero(is.Cond, buf) {
 						skip = true
 					}
 				}
-				if c, ok := n.(*ast.CallExpr); ok && x.src(c) == `b.WriteRune('\n')` {
-					nl++
+				if c, ok := n.(*ast.CallExpr); ok && len(c.Args) == 1 {
+					if sel, ok := c.Fun.(*ast.SelectorExpr); ok {
+						switch sel.Sel.Name {
+						case "WriteRune", "WriteByte", "WriteString":
+							if s, ok := x.strLit(c.Args[0]); ok && s == "\n" {
+								nl++
+							}
+						}
+					}
 				}
 				return true
 			})
 			x.defBool("writeReturnsEarlyOnEmptyBuffer", skip)
 			x.defNat("writeNewlineCalls", uint64(nl))
+		} else {
+			x.fail("logger: method write not found")
 		}
 
-		// ---- Logger.Log: order of pool.Get / render / Lock / Write / Unlock / pool.Put; the logger's state ----
-		if fd := x.funcDecl("logger", "logger", "Log"); fd != nil {
+		// ---- Logger.Log: order of Pool.Get / render / Lock / Write / Unlock / Pool.Put; the logger's state ----
+		poolVars := map[string]bool{}
+		for _, f := range x.files("logger") {
+			for _, d := range f.Decls {
+				gd, ok := d.(*ast.GenDecl)
+				if !ok || gd.Tok != token.VAR {
+					continue
+				}
+				for _, sp := range gd.Specs {
+					vs := sp.(*ast.ValueSpec)
+					for i, n := range vs.Names {
+						t := ""
+						if vs.Type != nil {
+							t = x.src(vs.Type)
+						} else if i < len(vs.Values) {
+							if cl, ok := vs.Values[i].(*ast.CompositeLit); ok {
+								t = x.src(cl.Type)
+							}
+						}
+						if t == "sync.Pool" {
+							poolVars[n.Name] = true
+						}
+					}
+				}
+			}
+		}
+		x.defNat("syncPoolVars", uint64(len(poolVars)))
+		var logFd *ast.FuncDecl
+		for _, f := range x.files("logger") {
+			for _, d := range f.Decls {
+				if fd, ok := d.(*ast.FuncDecl); ok && fd.Name.Name == "Log" && fd.Recv != nil && fd.Body != nil && len(fd.Body.List) > 0 {
+					if logFd != nil {
+						x.fail("logger: more than one Log method with a body")
+					}
+					logFd = fd
+				}
+			}
+		}
+		if logFd == nil {
+			x.fail("logger: no Log method with a body")
+		} else {
+			// events by method / callee name only; Get and Put count when the receiver is a package-level sync.Pool
 			var calls []string
 			writeArg := ""
 			deferred := false
-			ast.Inspect(fd.Body, func(n ast.Node) bool {
+			x.WalkInlined("logger", logFd, func(n ast.Node) bool {
 				switch v := n.(type) {
 				case *ast.DeferStmt, *ast.GoStmt:
 					deferred = true
 				case *ast.CallExpr:
-					calls = append(calls, x.src(v.Fun))
-					if x.src(v.Fun) == "l.w.Write" && len(v.Args) == 1 {
-						writeArg = x.src(v.Args[0])
+					sel, ok := v.Fun.(*ast.SelectorExpr)
+					if !ok {
+						return true
+					}
+					switch sel.Sel.Name {
+					case "Get", "Put":
+						if id, ok := sel.X.(*ast.Ident); ok && poolVars[id.Name] {
+							calls = append(calls, "Pool."+sel.Sel.Name)
+						}
+					case "Lock", "Unlock", "Reset", "Bytes", "String":
+						calls = append(calls, sel.Sel.Name)
+					case "write":
+						calls = append(calls, "render")
+					case "Write":
+						calls = append(calls, "Write")
+						// what is handed to the writer: the buffer's bytes taken inside the call, or something older
+						writeArg = "other"
+						if len(v.Args) == 1 {
+							if c, ok := v.Args[0].(*ast.CallExpr); ok {
+								if s, ok := c.Fun.(*ast.SelectorExpr); ok && s.Sel.Name == "Bytes" && len(c.Args) == 0 {
+									writeArg = "Bytes() of a buffer, evaluated in the call"
+								}
+							}
+						}
 					}
 				}
 				return true
@@ -175,145 +223,181 @@ func init() {
 			x.defStrList("logCalls", calls)
 			x.defStr("logWriteArg", writeArg)
 			x.defBool("logUsesDeferOrGo", deferred)
-		}
-		{
-			var fieldsOf []string
-			for _, f := range x.files("logger") {
-				ast.Inspect(f, func(n ast.Node) bool {
-					ts, ok := n.(*ast.TypeSpec)
-					if !ok || ts.Name.Name != "logger" {
-						return true
-					}
-					if st, ok := ts.Type.(*ast.StructType); ok {
-						for _, fl := range st.Fields.List {
-							for _, nm := range fl.Names {
-								fieldsOf = append(fieldsOf, nm.Name+" "+x.src(fl.Type))
-							}
-							if len(fl.Names) == 0 {
-								fieldsOf = append(fieldsOf, x.src(fl.Type))
+			// the receiver's struct: standard-library field types and the number of fields
+			var std []string
+			nf := 0
+			if rt := c20RecvTypeName(logFd); rt != "" {
+				for _, f := range x.files("logger") {
+					ast.Inspect(f, func(n ast.Node) bool {
+						ts, ok := n.(*ast.TypeSpec)
+						if !ok || ts.Name.Name != rt {
+							return true
+						}
+						if st, ok := ts.Type.(*ast.StructType); ok {
+							for _, fl := range st.Fields.List {
+								k := len(fl.Names)
+								if k == 0 {
+									k = 1
+								}
+								nf += k
+								if t := x.src(fl.Type); strings.Contains(t, ".") {
+									for i := 0; i < k; i++ {
+										std = append(std, t)
+									}
+								}
 							}
 						}
-					}
-					return true
-				})
-			}
-			if len(fieldsOf) == 0 {
-				x.fail("logger: struct type logger not found")
-			}
-			x.defStrList("loggerStructFields", fieldsOf)
-			if e := x.valueSpec("logger", "pool"); e != nil {
-				t := x.src(e)
-				if cl, ok := e.(*ast.CompositeLit); ok {
-					t = x.src(cl.Type)
+						return true
+					})
 				}
-				x.defStr("poolType", t)
 			}
+			sort.Strings(std)
+			x.defStrList("loggerStdFieldTypes", std)
+			x.defNat("loggerFieldCount", uint64(nf))
 		}
 
 		// ---- the call site in ServeHTTP ----
-		site := map[string]string{}
+		found := false
 		for _, f := range x.files("proxy") {
-			ast.Inspect(f, func(n ast.Node) bool {
-				cl, ok := n.(*ast.CompositeLit)
-				if !ok || x.src(cl.Type) != "logger.Event" {
-					return true
+			for _, d := range f.Decls {
+				fd, ok := d.(*ast.FuncDecl)
+				if !ok || fd.Body == nil {
+					continue
 				}
-				for _, el := range cl.Elts {
-					if kv, ok := el.(*ast.KeyValueExpr); ok {
-						v := x.src(kv.Value)
-						if u, ok := kv.Value.(*ast.UnaryExpr); ok && u.Op == token.AND {
-							if inner, ok := u.X.(*ast.CompositeLit); ok {
-								v = "&" + x.src(inner.Type) + "{…}"
-							}
-						}
-						site[x.src(kv.Key)] = v
+				ast.Inspect(fd.Body, func(n ast.Node) bool {
+					cl, ok := n.(*ast.CompositeLit)
+					if !ok || x.src(cl.Type) != "logger.Event" {
+						return true
 					}
-				}
-				return true
-			})
+					found = true
+					site := map[string]ast.Expr{}
+					for _, el := range cl.Elts {
+						if kv, ok := el.(*ast.KeyValueExpr); ok {
+							site[x.src(kv.Key)] = kv.Value
+						}
+					}
+					// Response: address of an http.Response literal (never nil)
+					respLit := false
+					if u, ok := site["Response"].(*ast.UnaryExpr); ok && u.Op == token.AND {
+						if inner, ok := u.X.(*ast.CompositeLit); ok && x.src(inner.Type) == "http.Response" {
+							respLit = true
+						}
+					}
+					// UpstreamAddr: the Host field of the very value passed as UpstreamURL
+					addrIsHost := false
+					if se, ok := site["UpstreamAddr"].(*ast.SelectorExpr); ok && se.Sel.Name == "Host" && site["UpstreamURL"] != nil {
+						addrIsHost = x.src(se.X) == x.src(site["UpstreamURL"])
+					}
+					// Request: a parameter of the enclosing handler
+					reqIsParam := false
+					if id, ok := site["Request"].(*ast.Ident); ok {
+						for _, p := range c20ParamNames(fd.Type) {
+							reqIsParam = reqIsParam || p == id.Name
+						}
+					}
+					var keys []string
+					for k := range site {
+						keys = append(keys, k)
+					}
+					sort.Strings(keys)
+					x.defStrList("eventSiteKeys", keys)
+					x.defBool("eventSiteResponseIsLiteral", respLit)
+					x.defBool("eventSiteUpstreamAddrIsHostOfUpstreamURL", addrIsHost)
+					x.defBool("eventSiteRequestIsHandlerParam", reqIsParam)
+					x.defStr("eventSiteFunc", fd.Name.Name)
+					return false
+				})
+			}
 		}
-		if len(site) == 0 {
+		if !found {
 			x.fail("no logger.Event literal found in package proxy")
 		}
-		var keys []string
-		for k := range site {
-			keys = append(keys, k)
-		}
-		sort.Strings(keys)
-		var pairs []string
-		for _, k := range keys {
-			pairs = append(pairs, fmt.Sprintf("(%s, %s)", leanStr(k), leanStr(site[k])))
-		}
-		x.defRaw("/-- the `logger.Event{…}` literal handed to `Logger.Log` in proxy/http_proxy.go: field ↦ expression -/\ndef eventSite : List (String × String) := [" + strings.Join(pairs, ", ") + "]")
 
 		// ---- proxy/http_headers.go ----
-		if e := x.valueSpec("proxy", "digit16"); e != nil {
-			s, ok := "", false
-			if c, isCall := e.(*ast.CallExpr); isCall && len(c.Args) == 1 && x.src(c.Fun) == "[]byte" {
-				s, ok = x.strLit(c.Args[0])
-			}
-			if !ok {
-				x.fail("proxy.digit16 is not []byte(\"…\")")
-			}
-			x.defStr("digit16", s)
-		}
 		if fd := x.funcDecl("proxy", "", "i32toa"); fd != nil {
-			x.defNat("i32toaBufLen", c20ArrayLen(x, fd, "buf"))
+			x.defNat("i32toaBufLen", c20ByteArrayLen(x, "proxy", fd))
 		}
 		if fd := x.funcDecl("proxy", "", "uint16base16"); fd != nil {
-			// b[k] = digit16[n&MASK>>SHIFT] : (k, mask, shift)
-			var trip []string
-			ast.Inspect(fd, func(n ast.Node) bool {
-				as, ok := n.(*ast.AssignStmt)
+			// b[k] = TABLE[…n…] : position k and the nibble of n it shows; TABLE is whatever package-level table is indexed
+			n := ""
+			if ps := c20ParamNames(fd.Type); len(ps) > 0 {
+				n = ps[0]
+			}
+			var pairs []string
+			table := ""
+			ast.Inspect(fd, func(nd ast.Node) bool {
+				as, ok := nd.(*ast.AssignStmt)
 				if !ok || len(as.Lhs) != 1 || len(as.Rhs) != 1 {
 					return true
 				}
 				li, ok1 := as.Lhs[0].(*ast.IndexExpr)
 				ri, ok2 := as.Rhs[0].(*ast.IndexExpr)
-				if !ok1 || !ok2 || x.src(ri.X) != "digit16" {
+				if !ok1 || !ok2 {
 					return true
 				}
-				k, _ := strconv.ParseUint(x.src(li.Index), 0, 64)
-				mask, shift := uint64(0), uint64(0)
-				idx := ri.Index
-				if be, ok := idx.(*ast.BinaryExpr); ok && be.Op == token.SHR {
-					shift, _ = strconv.ParseUint(x.src(be.Y), 0, 64)
-					idx = be.X
+				tid, ok := ri.X.(*ast.Ident)
+				if !ok {
+					return true
 				}
-				if be, ok := idx.(*ast.BinaryExpr); ok && be.Op == token.AND && x.src(be.X) == "n" {
-					mask, _ = strconv.ParseUint(x.src(be.Y), 0, 64)
-				} else {
-					x.fail("uint16base16: unrecognised index expression %s", x.src(ri.Index))
+				if table != "" && table != tid.Name {
+					x.fail("uint16base16: two different digit tables")
 				}
-				trip = append(trip, fmt.Sprintf("(%d, %d, %d)", k, mask, shift))
+				table = tid.Name
+				k, okk := c20ConstInt(x, "proxy", li.Index)
+				nib, okn := c20Nibble(x, ri.Index, n)
+				if !okk || !okn {
+					x.fail("uint16base16: unrecognised digit assignment %s", x.src(as))
+					return true
+				}
+				pairs = append(pairs, fmt.Sprintf("(%d, %d)", k, nib))
 				return true
 			})
-			sort.Strings(trip)
-			x.defRaw("/-- uint16base16: (position in \"0x0000\", mask, shift) of each digit; Go parses `n&m>>s` as `(n&m)>>s` -/\ndef uint16Digits : List (Nat × Nat × Nat) := [" + strings.Join(trip, ", ") + "]")
+			sort.Strings(pairs)
+			x.defRaw("/-- uint16base16: (position in the template, which 4-bit group of n, 0 = least significant) per digit -/\ndef uint16Nibbles : List (Nat × Nat) := [" + strings.Join(pairs, ", ") + "]")
 			if e := c20FirstStrArg(x, fd); e != "" {
 				x.defStr("uint16Template", e)
+			}
+			if table == "" {
+				x.fail("uint16base16: no digit table")
+			} else if e := x.valueSpec("proxy", table); e != nil {
+				if s, ok := c20ByteTable(x, "proxy", e); ok {
+					x.defStr("digit16", s)
+				} else {
+					x.fail("proxy.%s is not a byte table", table)
+				}
 			}
 		}
 
 		// ---- uuid/format.go ----
-		if e := x.valueSpec("uuid", "halfbyte2hexchar"); e != nil {
-			x.defRaw("def halfbyte2hexchar : List Nat := " + c20NatList(c20IntElems(x, e)))
-		}
 		if fd := x.funcDecl("uuid", "", "ToString"); fd != nil {
 			var idx []uint64
 			var dashes []uint64
+			hexTable := ""
 			ast.Inspect(fd, func(n ast.Node) bool {
 				switch v := n.(type) {
 				case *ast.RangeStmt:
-					idx = c20IntElems(x, v.X)
+					e := v.X
+					if id, ok := e.(*ast.Ident); ok { // a package-level table
+						if ve := x.valueSpec("uuid", id.Name); ve != nil {
+							e = ve
+						}
+					}
+					idx = c20IntElems(x, e)
 				case *ast.AssignStmt:
 					if len(v.Lhs) == 1 && len(v.Rhs) == 1 {
-						if ie, ok := v.Lhs[0].(*ast.IndexExpr); ok && x.src(ie.X) == "b" && x.src(v.Rhs[0]) == "'-'" {
-							k, err := strconv.ParseUint(x.src(ie.Index), 0, 64)
-							if err != nil {
-								x.fail("uuid.ToString: dash position is not a literal: %s", x.src(v))
+						if ie, ok := v.Lhs[0].(*ast.IndexExpr); ok {
+							if s, ok := x.strLit(v.Rhs[0]); ok && s == "-" {
+								k, ok := c20ConstInt(x, "uuid", ie.Index)
+								if !ok {
+									x.fail("uuid.ToString: dash position is not a constant: %s", x.src(v))
+								}
+								dashes = append(dashes, k)
 							}
-							dashes = append(dashes, k)
+							if ri, ok := v.Rhs[0].(*ast.IndexExpr); ok {
+								if id, ok := ri.X.(*ast.Ident); ok {
+									hexTable = id.Name
+								}
+							}
 						}
 					}
 				}
@@ -321,10 +405,320 @@ func init() {
 			})
 			x.defRaw("def uuidIdx : List Nat := " + c20NatList(idx))
 			x.defRaw("def uuidDashes : List Nat := " + c20NatList(dashes))
-			x.defNat("uuidBufLen", c20ArrayLen(x, fd, "b"))
+			x.defNat("uuidBufLen", c20ByteArrayLen(x, "uuid", fd))
+			if hexTable == "" {
+				x.fail("uuid.ToString: no hex table indexed")
+			} else if e := x.valueSpec("uuid", hexTable); e != nil {
+				if s, ok := c20ByteTable(x, "uuid", e); ok {
+					var vs []uint64
+					for _, c := range []byte(s) {
+						vs = append(vs, uint64(c))
+					}
+					x.defRaw("def halfbyte2hexchar : List Nat := " + c20NatList(vs))
+				} else {
+					x.fail("uuid.%s is not a byte table", hexTable)
+				}
+			}
 		}
 		return nil
 	})
+}
+
+// ---- time / event data flow through the field functions and their helpers ----
+
+// location-dependent methods of time.Time
+var c20Calendar = map[string]bool{"Year": true, "Month": true, "Day": true, "Hour": true, "Minute": true, "Second": true,
+	"Nanosecond": true, "Date": true, "Clock": true, "YearDay": true, "Weekday": true, "ISOWeek": true, "Format": true,
+	"AppendFormat": true, "String": true, "Zone": true, "MarshalText": true, "MarshalJSON": true}
+
+// roles of the identifiers in scope: the event, values that are e.End, values that are e.End.UTC()
+type c20Env struct{ event, end, utc map[string]bool }
+
+type c20TimeWalk struct {
+	x           *X
+	dir         string
+	field       string
+	n           int
+	notUTC      []string
+	endUses     []string
+	eventWrites []string
+	months      string
+}
+
+func c20ParamNames(ft *ast.FuncType) []string {
+	var ps []string
+	if ft != nil && ft.Params != nil {
+		for _, p := range ft.Params.List {
+			if len(p.Names) == 0 {
+				ps = append(ps, "_")
+			}
+			for _, n := range p.Names {
+				ps = append(ps, n.Name)
+			}
+		}
+	}
+	return ps
+}
+
+func c20Paren(e ast.Expr) ast.Expr {
+	for {
+		p, ok := e.(*ast.ParenExpr)
+		if !ok {
+			return e
+		}
+		e = p.X
+	}
+}
+
+func (env c20Env) isEvent(e ast.Expr) bool {
+	id, ok := c20Paren(e).(*ast.Ident)
+	return ok && env.event[id.Name]
+}
+
+// isEnd: <event>.End or a variable holding it
+func (env c20Env) isEnd(e ast.Expr) bool {
+	switch v := c20Paren(e).(type) {
+	case *ast.Ident:
+		return env.end[v.Name]
+	case *ast.SelectorExpr:
+		return v.Sel.Name == "End" && env.isEvent(v.X)
+	}
+	return false
+}
+
+// isUTC: <end>.UTC(), <utc>.UTC() or a variable holding one
+func (env c20Env) isUTC(e ast.Expr) bool {
+	switch v := c20Paren(e).(type) {
+	case *ast.Ident:
+		return env.utc[v.Name]
+	case *ast.CallExpr:
+		if sel, ok := v.Fun.(*ast.SelectorExpr); ok && sel.Sel.Name == "UTC" && len(v.Args) == 0 {
+			return env.isEnd(sel.X) || env.isUTC(sel.X)
+		}
+	}
+	return false
+}
+
+func (env c20Env) bind(name string, rhs ast.Expr) {
+	delete(env.event, name)
+	delete(env.end, name)
+	delete(env.utc, name)
+	switch {
+	case env.isUTC(rhs):
+		env.utc[name] = true
+	case env.isEnd(rhs):
+		env.end[name] = true
+	case env.isEvent(rhs):
+		env.event[name] = true
+	case c20MentionsTime(rhs, env):
+		env.end[name] = false // tracked: a time derived from End that is neither End nor End.UTC()
+	}
+}
+
+func (w *c20TimeWalk) walk(body ast.Node, env c20Env, depth int) {
+	x := w.x
+	ast.Inspect(body, func(nd ast.Node) bool {
+		switch v := nd.(type) {
+		case *ast.AssignStmt:
+			for _, l := range v.Lhs {
+				if c20RootedIn(l, env.event) {
+					if _, plain := l.(*ast.Ident); !plain {
+						w.eventWrites = append(w.eventWrites, w.field+": "+x.src(v))
+					}
+				}
+			}
+			if len(v.Lhs) == len(v.Rhs) {
+				for i, l := range v.Lhs {
+					if id, ok := l.(*ast.Ident); ok {
+						env.bind(id.Name, v.Rhs[i])
+					}
+				}
+			}
+		case *ast.IncDecStmt:
+			if c20RootedIn(v.X, env.event) {
+				w.eventWrites = append(w.eventWrites, w.field+": "+x.src(v))
+			}
+		case *ast.IndexExpr:
+			// the month-name table: the package-level []string that a wall-clock renderer indexes
+			if id, ok := v.X.(*ast.Ident); ok && strings.HasPrefix(w.field, "$time_") {
+				if e := c20ValueSpec(x, w.dir, id.Name); e != nil {
+					if cl, ok := e.(*ast.CompositeLit); ok && x.src(cl.Type) == "[]string" {
+						w.months = id.Name
+					}
+				}
+			}
+		case *ast.CallExpr:
+			if sel, ok := v.Fun.(*ast.SelectorExpr); ok {
+				if env.isEnd(sel.X) {
+					w.endUses = append(w.endUses, sel.Sel.Name)
+					if c20Calendar[sel.Sel.Name] {
+						w.n++
+						w.notUTC = append(w.notUTC, w.field+": "+sel.Sel.Name+" on End in its own location")
+					}
+				} else if c20Calendar[sel.Sel.Name] && len(v.Args) <= 1 && c20TimeLike(sel.X, env) {
+					w.n++
+					if !env.isUTC(sel.X) {
+						w.notUTC = append(w.notUTC, w.field+": "+sel.Sel.Name+" on a time value not known to be End.UTC()")
+					}
+				}
+			}
+			// follow unexported same-package helpers, binding parameters to the roles of the arguments
+			name := ""
+			switch f := v.Fun.(type) {
+			case *ast.Ident:
+				name = f.Name
+			case *ast.SelectorExpr:
+				name = f.Sel.Name
+			}
+			if name != "" && !ast.IsExported(name) && depth < 4 && name != "atoi" && name != "hostport" {
+				if callee := x.anyFuncDecl(w.dir, name); callee != nil {
+					ps := c20ParamNames(callee.Type)
+					cenv := c20Env{event: map[string]bool{}, end: map[string]bool{}, utc: map[string]bool{}}
+					for i, a := range v.Args {
+						if i < len(ps) {
+							switch {
+							case env.isUTC(a):
+								cenv.utc[ps[i]] = true
+							case env.isEnd(a):
+								cenv.end[ps[i]] = true
+							case env.isEvent(a):
+								cenv.event[ps[i]] = true
+							default:
+								if c20MentionsTime(a, env) {
+									// a time derived some other way (e.g. End.In(loc)): not UTC
+									cenv.end[ps[i]] = false
+								}
+							}
+						}
+					}
+					w.walk(callee.Body, cenv, depth+1)
+				}
+			}
+		}
+		return true
+	})
+}
+
+// c20TimeLike: the receiver of a calendar-named method is a time value we track (UTC/End variable or an
+// expression built from the event's End); other receivers (a bytes.Buffer's String(), …) are not counted.
+func c20TimeLike(e ast.Expr, env c20Env) bool {
+	if env.isUTC(e) || env.isEnd(e) {
+		return true
+	}
+	if id, ok := c20Paren(e).(*ast.Ident); ok {
+		if _, tracked := env.end[id.Name]; tracked { // bound to a time that is neither End nor End.UTC()
+			return true
+		}
+		return false
+	}
+	return c20MentionsTime(e, env)
+}
+
+// c20MentionsTime: the expression is derived from the event's End (e.g. e.End.In(loc), e.End.Local())
+func c20MentionsTime(e ast.Expr, env c20Env) bool {
+	found := false
+	ast.Inspect(e, func(n ast.Node) bool {
+		if ex, ok := n.(ast.Expr); ok && (env.isEnd(ex) || env.isUTC(ex)) {
+			found = true
+		}
+		return !found
+	})
+	return found
+}
+
+// c20ValueSpec: initialiser of a package-level var/const, nil when there is none (no error recorded)
+func c20ValueSpec(x *X, dir, name string) ast.Expr {
+	for _, f := range x.files(dir) {
+		for _, d := range f.Decls {
+			gd, ok := d.(*ast.GenDecl)
+			if !ok {
+				continue
+			}
+			for _, s := range gd.Specs {
+				if vs, ok := s.(*ast.ValueSpec); ok {
+					for i, n := range vs.Names {
+						if n.Name == name && i < len(vs.Values) {
+							return vs.Values[i]
+						}
+					}
+				}
+			}
+		}
+	}
+	return nil
+}
+
+func c20RootedIn(e ast.Expr, names map[string]bool) bool {
+	for {
+		switch v := e.(type) {
+		case *ast.SelectorExpr:
+			e = v.X
+		case *ast.IndexExpr:
+			e = v.X
+		case *ast.StarExpr:
+			e = v.X
+		case *ast.ParenExpr:
+			e = v.X
+		case *ast.Ident:
+			return names[v.Name]
+		default:
+			return false
+		}
+	}
+}
+
+// c20IsLenZero: `<buf>.Len() == 0`, `0 == <buf>.Len()`, `<buf>.Len() <= 0`, `<buf>.Len() < 1`, `len(<buf>.Bytes()) == 0`
+func c20IsLenZero(cond ast.Expr, buf string) bool {
+	be, ok := c20Paren(cond).(*ast.BinaryExpr)
+	if !ok {
+		return false
+	}
+	isLen := func(e ast.Expr) bool {
+		c, ok := c20Paren(e).(*ast.CallExpr)
+		if !ok {
+			return false
+		}
+		if sel, ok := c.Fun.(*ast.SelectorExpr); ok && sel.Sel.Name == "Len" && len(c.Args) == 0 {
+			id, ok := sel.X.(*ast.Ident)
+			return ok && id.Name == buf
+		}
+		if id, ok := c.Fun.(*ast.Ident); ok && id.Name == "len" && len(c.Args) == 1 {
+			if ic, ok := c.Args[0].(*ast.CallExpr); ok {
+				if sel, ok := ic.Fun.(*ast.SelectorExpr); ok && (sel.Sel.Name == "Bytes" || sel.Sel.Name == "String") {
+					id, ok := sel.X.(*ast.Ident)
+					return ok && id.Name == buf
+				}
+			}
+		}
+		return false
+	}
+	lit := func(e ast.Expr, v string) bool {
+		l, ok := c20Paren(e).(*ast.BasicLit)
+		return ok && l.Kind == token.INT && l.Value == v
+	}
+	switch be.Op {
+	case token.EQL:
+		return (isLen(be.X) && lit(be.Y, "0")) || (isLen(be.Y) && lit(be.X, "0"))
+	case token.LEQ:
+		return isLen(be.X) && lit(be.Y, "0")
+	case token.LSS:
+		return isLen(be.X) && lit(be.Y, "1")
+	}
+	return false
+}
+
+func c20RecvTypeName(fd *ast.FuncDecl) string {
+	if fd.Recv == nil || len(fd.Recv.List) != 1 {
+		return ""
+	}
+	t := fd.Recv.List[0].Type
+	if st, ok := t.(*ast.StarExpr); ok {
+		t = st.X
+	}
+	if id, ok := t.(*ast.Ident); ok {
+		return id.Name
+	}
+	return ""
 }
 
 var c20DocLine = regexp.MustCompile(`^\s*(\$[A-Za-z0-9_.<>-]+)\s+-\s`)
@@ -348,25 +742,6 @@ func c20DocFields(x *X) []string {
 	return out
 }
 
-func c20RootedAt(e ast.Expr, name string) bool {
-	for {
-		switch v := e.(type) {
-		case *ast.SelectorExpr:
-			e = v.X
-		case *ast.IndexExpr:
-			e = v.X
-		case *ast.StarExpr:
-			e = v.X
-		case *ast.ParenExpr:
-			e = v.X
-		case *ast.Ident:
-			return v.Name == name
-		default:
-			return false
-		}
-	}
-}
-
 func c20StrElems(x *X, e ast.Expr) []string {
 	cl, ok := e.(*ast.CompositeLit)
 	if !ok {
@@ -384,6 +759,46 @@ func c20StrElems(x *X, e ast.Expr) []string {
 	return out
 }
 
+// c20ConstInt evaluates an integer literal, a character literal, or a package-level constant naming one.
+func c20ConstInt(x *X, dir string, e ast.Expr) (uint64, bool) {
+	switch v := c20Paren(e).(type) {
+	case *ast.BasicLit:
+		switch v.Kind {
+		case token.INT:
+			n, err := strconv.ParseUint(v.Value, 0, 64)
+			return n, err == nil
+		case token.CHAR:
+			if s, err := strconv.Unquote(v.Value); err == nil && len(s) == 1 {
+				return uint64(s[0]), true
+			}
+		}
+	case *ast.Ident:
+		// a constant of the package, declared at package level or inside a function
+		var val ast.Expr
+		for _, f := range x.files(dir) {
+			ast.Inspect(f, func(n ast.Node) bool {
+				gd, ok := n.(*ast.GenDecl)
+				if !ok || gd.Tok != token.CONST {
+					return true
+				}
+				for _, sp := range gd.Specs {
+					vs := sp.(*ast.ValueSpec)
+					for i, n := range vs.Names {
+						if n.Name == v.Name && i < len(vs.Values) && val == nil {
+							val = vs.Values[i]
+						}
+					}
+				}
+				return false
+			})
+		}
+		if val != nil {
+			return c20ConstInt(x, dir, val)
+		}
+	}
+	return 0, false
+}
+
 func c20IntElems(x *X, e ast.Expr) []uint64 {
 	cl, ok := e.(*ast.CompositeLit)
 	if !ok {
@@ -392,13 +807,81 @@ func c20IntElems(x *X, e ast.Expr) []uint64 {
 	}
 	var out []uint64
 	for _, el := range cl.Elts {
-		v, err := strconv.ParseUint(x.src(el), 0, 64)
-		if err != nil {
-			x.fail("not an integer literal: %s", x.src(el))
+		v, ok := c20ConstInt(x, "uuid", el)
+		if !ok {
+			x.fail("not an integer constant: %s", x.src(el))
 		}
 		out = append(out, v)
 	}
 	return out
+}
+
+// c20ByteTable: the bytes of `[]byte("…")` or `[]byte{…}` (integer or character elements).
+func c20ByteTable(x *X, dir string, e ast.Expr) (string, bool) {
+	switch v := e.(type) {
+	case *ast.CallExpr:
+		if x.src(v.Fun) == "[]byte" && len(v.Args) == 1 {
+			return x.strLit(v.Args[0])
+		}
+	case *ast.CompositeLit:
+		var b []byte
+		for _, el := range v.Elts {
+			n, ok := c20ConstInt(x, dir, el)
+			if !ok || n > 255 {
+				return "", false
+			}
+			b = append(b, byte(n))
+		}
+		return string(b), true
+	}
+	return "", false
+}
+
+// c20Nibble: which 4-bit group of n the index expression selects: (n & (0xf<<s)) >> s, (n >> s) & 0xf, n & 0xf.
+func c20Nibble(x *X, e ast.Expr, n string) (uint64, bool) {
+	isN := func(e ast.Expr) bool {
+		id, ok := c20Paren(e).(*ast.Ident)
+		return ok && id.Name == n
+	}
+	e = c20Paren(e)
+	be, ok := e.(*ast.BinaryExpr)
+	if !ok {
+		return 0, false
+	}
+	switch be.Op {
+	case token.SHR: // (n & mask) >> s
+		s, ok1 := c20ConstInt(x, "proxy", be.Y)
+		in, ok2 := c20Paren(be.X).(*ast.BinaryExpr)
+		if ok1 && ok2 && in.Op == token.AND {
+			var mask uint64
+			var okm bool
+			switch {
+			case isN(in.X):
+				mask, okm = c20ConstInt(x, "proxy", in.Y)
+			case isN(in.Y):
+				mask, okm = c20ConstInt(x, "proxy", in.X)
+			}
+			if okm && s%4 == 0 && mask == 0xf<<s {
+				return s / 4, true
+			}
+		}
+	case token.AND: // n & 0xf, (n >> s) & 0xf, n & (0xf << 0)
+		for _, pr := range [][2]ast.Expr{{be.X, be.Y}, {be.Y, be.X}} {
+			mask, okm := c20ConstInt(x, "proxy", pr[1])
+			if !okm {
+				continue
+			}
+			if isN(pr[0]) && mask == 0xf {
+				return 0, true
+			}
+			if sh, ok := c20Paren(pr[0]).(*ast.BinaryExpr); ok && sh.Op == token.SHR && isN(sh.X) && mask == 0xf {
+				if s, ok := c20ConstInt(x, "proxy", sh.Y); ok && s%4 == 0 {
+					return s / 4, true
+				}
+			}
+		}
+	}
+	return 0, false
 }
 
 func c20NatList(vs []uint64) string {
@@ -419,29 +902,32 @@ func c20Uniq(xs []string) []string {
 	return out
 }
 
-// c20ArrayLen: length N of the local `var name [N]byte` / `name := [N]byte{}` in fd.
-func c20ArrayLen(x *X, fd *ast.FuncDecl, name string) uint64 {
-	var n uint64
-	found := false
+// c20ByteArrayLen: length N of THE fixed-size byte array local of fd (`var v [N]byte` / `v := [N]byte{}`),
+// whatever it is called; N may be a literal or a package-level constant.
+func c20ByteArrayLen(x *X, dir string, fd *ast.FuncDecl) uint64 {
+	var lens []uint64
 	arr := func(t ast.Expr) {
-		if at, ok := t.(*ast.ArrayType); ok && at.Len != nil {
-			if v, err := strconv.ParseUint(x.src(at.Len), 0, 64); err == nil {
-				n, found = v, true
+		if at, ok := t.(*ast.ArrayType); ok && at.Len != nil && x.src(at.Elt) == "byte" {
+			if v, ok := c20ConstInt(x, dir, at.Len); ok {
+				lens = append(lens, v)
 			}
 		}
 	}
 	ast.Inspect(fd, func(nd ast.Node) bool {
 		switch v := nd.(type) {
 		case *ast.ValueSpec:
-			for _, id := range v.Names {
-				if id.Name == name && v.Type != nil {
-					arr(v.Type)
+			if v.Type != nil {
+				arr(v.Type)
+			}
+			for _, e := range v.Values {
+				if cl, ok := e.(*ast.CompositeLit); ok && v.Type == nil {
+					arr(cl.Type)
 				}
 			}
 		case *ast.AssignStmt:
-			if len(v.Lhs) == 1 && len(v.Rhs) == 1 && v.Tok == token.DEFINE {
-				if id, ok := v.Lhs[0].(*ast.Ident); ok && id.Name == name {
-					if cl, ok := v.Rhs[0].(*ast.CompositeLit); ok {
+			if v.Tok == token.DEFINE {
+				for _, e := range v.Rhs {
+					if cl, ok := e.(*ast.CompositeLit); ok {
 						arr(cl.Type)
 					}
 				}
@@ -449,10 +935,11 @@ func c20ArrayLen(x *X, fd *ast.FuncDecl, name string) uint64 {
 		}
 		return true
 	})
-	if !found {
-		x.fail("%s: no fixed-size array %q", fd.Name.Name, name)
+	if len(lens) != 1 {
+		x.fail("%s: expected exactly one fixed-size byte array, found %d", fd.Name.Name, len(lens))
+		return 0
 	}
-	return n
+	return lens[0]
 }
 
 // c20FirstStrArg: the string inside the first []byte("…") conversion in fd.
